@@ -371,6 +371,12 @@ def hostSigGateFor (sig : Bytes) (algo : String) (cryptoValid : Bool) : Bool :=
     the connection survives iff every exchange passed -/
 def sessionAccepts (exchanges : List (Bool × Bool)) : Bool := exchanges.all (fun x => x.1 && x.2)
 
+/-- `enterKeyExchange` on a KEXINIT with first_kex_packet_follows: the next packet (the peer's guess) is read and
+    discarded iff the first kex algorithms or the first host key algorithms of the two lists differ (RFC 4253 §7;
+    the lists are non-empty here because negotiation succeeded before) -/
+def discardGuess (follows : Bool) (ck sk chk shk : List String) : Bool :=
+  follows && (ck.head? != sk.head? || chk.head? != shk.head?)
+
 /-! ## the fixed groups -/
 
 def oakley2Hex : String := "FFFFFFFFFFFFFFFFC90FDAA22168C234C4C6628B80DC1CD129024E088A67CC74020BBEA63B139B22514A08798E3404DDEF9519B3CD3A431B302B0A6DF25F14374FE1356D6D51C245E485B576625E7EC6F44C42E9A637ED6B0BFF5CB6F406B7EDEE386BFB5A899FA5AE9F24117C4B1FE649286651ECE65381FFFFFFFFFFFFFFFF"
